@@ -4,8 +4,8 @@ Independent of ppci's optimiser and back ends: it only reads the IR data
 structure (blocks, instructions, operands, phi inputs).  Anything on which back
 ends may legitimately differ raises `Undef` — callers discard such executions.
 
-Address independence is decided by running the same call under two different
-memory layouts (`layout=0/1`: other bases, other order, other low address
+Address independence is decided by running the same call under three different
+memory layouts (`layout=0/1/2`: other bases, other order, other low address
 bits); whatever part of the observation differs between the two is address
 dependent and is masked out by `observe_call`.
 """
@@ -236,10 +236,15 @@ class Machine:
             self.g_next, self.g_gap, self.g_skew = 0x0100_0000, 64, 0
             self.s_next, self.s_gap = 0x4000_0000, 32
             self.f_next, self.b_next, self.l_next = 0x0001_0000, 0x3000_0000, 0x2000_0000
-        else:
+        elif layout == 1:
             self.g_next, self.g_gap, self.g_skew = 0x0500_0000, 4096, 1
             self.s_next, self.s_gap = 0x6000_0000, 256
             self.f_next, self.b_next, self.l_next = 0x0009_0000, 0x3800_0000, 0x2800_0000
+        else:
+            # third layout: every byte of an address differs from layouts 0 and 1 with high probability
+            self.g_next, self.g_gap, self.g_skew = 0x0A37_1500, 1000, 1
+            self.s_next, self.s_gap = 0x5B12_3400, 96
+            self.f_next, self.b_next, self.l_next = 0x0015_6700, 0x3C9A_4200, 0x2D4B_8100
         self.literals = {}
         self._layout_globals()
 
@@ -707,9 +712,10 @@ class Machine:
 
 def _hex_masked(obj):
     h = bytes(obj.data).hex()
-    if not any(obj.pmask):
+    if not any(obj.pmask) and all(obj.init):
         return h
-    return "".join("??" if obj.pmask[i] else h[2 * i : 2 * i + 2] for i in range(obj.size))
+    # pointer bytes are address dependent; bytes copied from never-initialised memory have no defined value
+    return "".join("??" if (obj.pmask[i] or not obj.init[i]) else h[2 * i : 2 * i + 2] for i in range(obj.size))
 
 
 def _obsval(v):
@@ -730,7 +736,7 @@ def observe_call(module, fname, args, ptr_bits=64, little=True, fuel=20000, buff
     Raises Undef / Unsupported.
     """
     out = []
-    for layout in (0, 1):
+    for layout in (0, 1, 2):
         m = Machine(module, ptr_bits, little, layout, fuel, ext)
         addrs = [m.new_buffer(bytes(b)) for b in buffers]
 
@@ -746,8 +752,8 @@ def observe_call(module, fname, args, ptr_bits=64, little=True, fuel=20000, buff
         if len(rets) > 1:
             obs["more"] = [_obsval(r) for r in rets[1:]]
         out.append(obs)
-    a, b = out
-    return merge_layouts(a, b)
+    a, b, c = out
+    return merge_layouts(merge_layouts(a, b), c)
 
 
 def merge_layouts(a, b):
